@@ -346,6 +346,8 @@ not have any effect."""
 
         if check:
             self._check_and_update(data)
+            # plain integers (e.g. `True` is the literal 1)
+            data = [(c, int(l)) for c, l in data[:-2]] + data[-2:]
 
         self._constraints.append(data)
 
@@ -397,6 +399,9 @@ not have any effect."""
 
         if check:
             self._check_and_update(constraint)
+            # plain integers (e.g. `True` is the literal 1)
+            constraint = [(c, int(l)) for c, l in constraint[:-2]] \
+                + constraint[-2:]
 
         self._constraints.append(constraint)
 
@@ -475,6 +480,8 @@ not have any effect."""
         if check:
             # dummy constraint, just to check the literals once
             self._check_and_update([(1,l) for l in lits]+ ['==',0])
+            # plain integers (e.g. `True` is the literal 1)
+            lits = [int(l) for l in lits]
 
         n = len(lits)
         if value < 0 or value > n:
